@@ -115,7 +115,8 @@ fn gen_events() -> Vec<(Option<String>, String)> {
         .map(|i| {
             let ty = if gen::ratio(1, 3) { Some(format!("type{i}")) } else { None };
             // sizes with 1, 2, 3 and 4 hex digits in one stream (a size line must not depend on the previous chunk)
-            let pad = gen::pick(&[0usize, 0, 0, 12, 250, 300, 4090, 5000]);
+            // (30000 / 40000: two or three such events queued together exceed one 65528-byte chunk)
+            let pad = gen::pick(&[0usize, 0, 0, 12, 250, 300, 4090, 5000, 30_000, 40_000]);
             let data = if pad == 0 && gen::ratio(1, 3) { format!("{i}") } else { format!("event-{i}-{}{}", gen::below(1000), "x".repeat(pad)) };
             (ty, data)
         })
